@@ -320,6 +320,109 @@ theorem build_exact_acyclic_inputs (doc : Doc) (d : SchemaD) (r : SdlRules doc d
       selfDefaults := selfDefaults_of_noSelfReach doc r.valid.uniqueTypes
         (fun t _ _ => noSelfReach_of_rank _ rank (edges_of_merged doc rank hrank) t.name) }
 
+/-! ### recursive input objects are fine as long as the types that carry DEFAULTS are off the cycles
+
+An in-progress hit — of `hide` in the model, of the set `_in_progress` in the code — happens while the default of a field
+of some input object `T` is completed and the completion comes back to a type on the stack, all of which lead to `T`: it
+needs a cycle through `T`.  So only the input objects that HAVE a defaulted field matter. -/
+
+def hasDefaulted (t : TypeDef) : Prop := ∃ f ∈ t.inputFields, f.default.isSome = true
+
+theorem selfDefaults_of_defaultsOffCycles (doc : Doc) (hu : ((typeDefs doc).map (·.name)).Nodup)
+    (hno : ∀ t ∈ typeDefs doc, t.kind = .input → hasDefaulted (mergeDef (typeExts doc) t) →
+      ¬ InReach ((Env.of (typeDefs doc)).extended (typeExts doc)) t.name t.name) :
+    SelfDefaults doc := by
+  intro t ht
+  by_cases hk : t.kind = .input
+  · have hkm : (mergeDef (typeExts doc) t).kind = .input := by rw [(mergeDef_spec _ t).1]; exact hk
+    by_cases hd : hasDefaulted (mergeDef (typeExts doc) t)
+    · have hfd := findDef_extended_of_mem (typeDefs doc) (typeExts doc) hu t ht
+      unfold buildTypeDefX
+      simp only [hkm]
+      have : (mergeDef (typeExts doc) t).inputFields.mapM
+            (buildArgumentX (Env.of (typeDefs doc)) ((Env.of (typeDefs doc)).extended (typeExts doc)) (hideFor t.kind t.name))
+          = (mergeDef (typeExts doc) t).inputFields.mapM
+            (buildArgumentX (Env.of (typeDefs doc)) ((Env.of (typeDefs doc)).extended (typeExts doc)) none) := by
+        apply mapM_congr_mem
+        intro a ha
+        have hh : hideFor t.kind t.name = some t.name := by simp [hideFor, hk]
+        unfold buildArgumentX
+        cases hdl : a.default with
+        | none => rfl
+        | some l =>
+          simp only [defaultValueX, hh, needsHidden_false_of_noSelfReach _ _ _ hfd hkm (hno t ht hk hd) a ha l]
+          rfl
+      rw [this]
+    · apply selfDefaults_of_noDefaults _ _ _ _ _ hkm
+      intro a ha
+      cases hdl : a.default with
+      | none => rfl
+      | some l => exact absurd ⟨a, ha, by simp [hdl]⟩ hd
+  · exact selfDefaults_of_kind _ _ t _ hk
+
+/-- the graph of the definitions alone is a subgraph of the graph of the merged definitions -/
+theorem inReach_extended (defs X : List TypeDef) : ∀ a b, InReach (Env.of defs) a b → InReach ((Env.of defs).extended X) a b := by
+  intro a b h
+  induction h with
+  | @step n d f hfd hk hf =>
+    have hfd' : ((Env.of defs).extended X).findDef n = some (mergeDef X d) := by
+      show (defs.find? (·.name == n)).map (mergeExt X) = some (mergeDef X d)
+      have : defs.find? (·.name == n) = some d := hfd
+      rw [this]; rfl
+    obtain ⟨s1, _, _, _, _, _, _, s8⟩ := mergeDef_spec X d
+    exact InReach.step hfd' (by rw [s1]; exact hk) (by rw [s8]; exact List.mem_append_left _ hf)
+  | trans _ _ ih1 ih2 => exact InReach.trans ih1 ih2
+
+theorem noThunkCycle_of_defaultsOffCycles (defs X : List TypeDef) (hu : (defs.map (·.name)).Nodup)
+    (hno : ∀ t ∈ defs, t.kind = .input → hasDefaulted (mergeDef X t) → ¬ InReach ((Env.of defs).extended X) t.name t.name) :
+    hasThunkCycle (Env.of defs) defs = false := by
+  cases h : hasThunkCycle (Env.of defs) defs with
+  | false => rfl
+  | true =>
+    unfold hasThunkCycle at h
+    obtain ⟨d, hd, hc⟩ := List.any_eq_true.mp h
+    simp only [Bool.and_eq_true, beq_iff_eq] at hc
+    have hk : d.kind = .input := hc.1.1.1
+    have hfd : (Env.of defs).findDef d.name = some d := by
+      show defs.find? (fun x => x.name == d.name) = some d
+      exact find_name_of_mem (fun (x : TypeDef) => x.name) defs hu d hd
+    -- the first edge of the cycle comes from a default literal of `d`
+    have hdef : hasDefaulted (mergeDef X d) := by
+      have hr := hc.2
+      cases hl : defs.length with
+      | zero => rw [hl] at hr; simp [thunkReach] at hr
+      | succ k =>
+        rw [hl] at hr
+        simp only [thunkReach, hfd, List.any_eq_true] at hr
+        obtain ⟨m, hm, _⟩ := hr
+        unfold thunkEdges at hm
+        obtain ⟨f, hf, hm⟩ := List.mem_flatMap.mp hm
+        obtain ⟨_, _, _, _, _, _, _, s8⟩ := mergeDef_spec X d
+        refine ⟨f, by rw [s8]; exact List.mem_append_left _ hf, ?_⟩
+        cases hdl : f.default with
+        | none => rw [hdl] at hm; simp at hm
+        | some l => rfl
+    exact absurd (inReach_extended defs X _ _ (thunkReach_reach _ _ _ _ ⟨d, hfd, hk⟩ hc.2)) (hno d hd hk hdef)
+
+/-- **build_exact when the input objects that carry defaults are off the cycles** (recursive input objects allowed):
+    the rules of the specification and `BaseDefaults` (finding S8); the premise is about the document only. -/
+theorem build_exact_defaults_off_cycles (doc : Doc) (d : SchemaD) (r : SdlRules doc d) (hb : BaseDefaults doc)
+    (hno : ∀ t ∈ typeDefs doc, t.kind = .input → hasDefaulted (mergeDef (typeExts doc) t) →
+      ¬ InReach ((Env.of (typeDefs doc)).extended (typeExts doc)) t.name t.name) :
+    ∃ s d', build doc = .ok s ∧ Declared doc = some d' ∧ SameContent s d' :=
+  build_exact_spec doc d r
+    { baseDefaults := hb,
+      noThunkCycle := noThunkCycle_of_defaultsOffCycles _ _ r.valid.uniqueTypes hno,
+      selfDefaults := selfDefaults_of_defaultsOffCycles doc r.valid.uniqueTypes hno }
+
+/-- nothing points to `p` ⇒ nothing reaches `p` -/
+theorem noReach_of_noEdgeInto (env : Env) (p : String)
+    (h : ∀ n d, env.findDef n = some d → d.kind = .input → ∀ f ∈ d.inputFields, f.type.base ≠ p) : ∀ a b, InReach env a b → b ≠ p := by
+  intro a b hr
+  induction hr with
+  | step hfd hk hf => exact h _ _ hfd hk _ hf
+  | trans _ _ _ ih2 => exact ih2
+
 /-! ### non-vacuity, and the boundary -/
 
 /-- `input Range { min: Int }  extend input Range { max: String = "m" }  input Filter { range: Range = {} }
@@ -344,5 +447,60 @@ theorem nested_rules : SdlRules nestedDoc ((Declared nestedDoc).get nestedDeclar
 
 example : ∃ s d', build nestedDoc = .ok s ∧ Declared nestedDoc = some d' ∧ SameContent s d' :=
   build_exact_acyclic_inputs _ _ nested_rules (baseDefaults_of_B _ (by decide)) nestedRank (by decide)
+
+/-- `input Node { next: Node  v: String }  extend input Node { w: String }
+    input Page { first: Node = {v: "a"}  size: String = "s" }  type Query { f(p: Page = {}): Int }`:
+    `Node` is recursive and carries no default; the defaults sit on `Page`, which nothing points to.
+    (With `extend input Node { w: String = "w" }` the premise fails for `Node`, as it should: its own fields are
+    extended while it is in progress.) -/
+def recDoc : Doc := [
+  .type { kind := .input, name := "Node", inputFields := [{ name := "next", type := .named "Node" }, { name := "v", type := .named "String" }] },
+  .ext { kind := .input, name := "Node", inputFields := [{ name := "w", type := .named "String" }] },
+  .type { kind := .input, name := "Page", inputFields := [{ name := "first", type := .named "Node", default := some (.obj [("v", .str "a")]) },
+                                                        { name := "size", type := .named "String", default := some (.str "s") }] },
+  .type { kind := .object, name := "Query", fields := [{ name := "f", type := .named "Int", args := [{ name := "p", type := .named "Page", default := some (.obj []) }] }] }]
+
+theorem recDeclares : (Declared recDoc).isSome = true := by decide
+
+set_option maxRecDepth 4000 in
+theorem rec_rules : SdlRules recDoc ((Declared recDoc).get recDeclares) :=
+  { valid := { uniqueTypes := by decide, uniqueDirectives := by decide, oneSchema := by decide, extTargets := by decide,
+               noBuiltinNames := by decide, declares := by decide, mergedMembersUnique := by decide },
+    declares := by simp, kinds := ⟨by decide, by decide, by decide⟩, noSpecified := by decide,
+    schemaOps := by decide, extOps := by decide, extOpsNew := by decide }
+
+/-- a RECURSIVE input object (`Node`), defaults on a type nothing points to (`Page`): exact -/
+example : ∃ s d', build recDoc = .ok s ∧ Declared recDoc = some d' ∧ SameContent s d' := by
+  refine build_exact_defaults_off_cycles _ _ rec_rules (baseDefaults_of_B _ (by decide)) ?_
+  intro t ht hk hd
+  -- the only input object with a defaulted field is `Page`, and no field has type `Page`
+  have hP : t.name = "Page" := by
+    have : t = ⟨.input, "Node", none, [], [], [], [], [{ name := "next", type := .named "Node" }, { name := "v", type := .named "String" }], []⟩ ∨ t.name = "Page" ∨ t.kind = .object := by
+      simp only [recDoc, typeDefs, List.filterMap_cons, List.filterMap_nil, List.mem_cons, List.mem_nil_iff, or_false] at ht
+      rcases ht with h | h | h
+      · left; rw [h]
+      · right; left; rw [h]
+      · right; right; rw [h]
+    rcases this with h | h | h
+    · exfalso
+      subst h
+      obtain ⟨f, hf, hfd⟩ := hd
+      have : ∀ f ∈ (mergeDef (typeExts recDoc) ⟨.input, "Node", none, [], [], [], [], [{ name := "next", type := .named "Node" }, { name := "v", type := .named "String" }], []⟩).inputFields, f.default.isSome = false := by decide
+      rw [this f hf] at hfd; cases hfd
+    · exact h
+    · rw [h] at hk; cases hk
+  rw [hP]
+  intro hr
+  exact noReach_of_noEdgeInto _ "Page" (by
+    intro n d hfd hk f hf
+    have hfd' : ((typeDefs recDoc).find? (·.name == n)).map (mergeExt (typeExts recDoc)) = some d := hfd
+    cases hq : (typeDefs recDoc).find? (·.name == n) with
+    | none => rw [hq] at hfd'; cases hfd'
+    | some t0 =>
+      rw [hq] at hfd'
+      simp only [Option.map_some, Option.some.injEq] at hfd'
+      have hm : d ∈ merged recDoc := by rw [← hfd']; exact List.mem_map_of_mem (List.mem_of_find?_eq_some hq)
+      have hall : ∀ d ∈ merged recDoc, ∀ f ∈ d.inputFields, f.type.base ≠ "Page" := by decide
+      exact hall d hm f hf) _ _ hr rfl
 
 end PyGql.Props.C11
